@@ -9,6 +9,7 @@ from ..loops import dotted
 from ..nf import NF, Scope, Poly, parse_expr
 from ..repo import Repo, loc, short, AnalysisError, positional_params, param_names, ModuleInfo, bind_call
 from ..shapes import ShapeEngine, Fn, doc_shapes
+from ..sem import same_ingredients
 
 EXPLANATION = (
     "Symbolic shapes are pushed through the vmapped log-variance bounding wrappers of GaussianMLPEnsemble (function values built in "
@@ -58,6 +59,47 @@ def _class_self(repo, se):
     # seeds for properties / parameters (documented: one bound per output)
     attrs.update({"min_log_var": ("O",), "max_log_var": ("O",), "ensemble": ("E",), "n_outputs": ("dim", "O"), "n_ensemble": ("dim", "E")})
     return attrs
+
+
+def r0_live_bounds(ck, repo):
+    """The soft bounds are functions of trainable parameters: every forward path must read them when it runs.  A value of such a
+    property that is evaluated in __init__ and stored (attribute, partial argument, default) is the bound at construction time."""
+    cls = repo.cls(ENS)
+    mi = cls._module
+    props = {}
+    for m in cls.body:
+        if isinstance(m, ast.FunctionDef) and any(dotted(d) == "property" for d in m.decorator_list):
+            reads = {x.attr for x in ast.walk(m) if isinstance(x, ast.Attribute) and isinstance(x.value, ast.Name) and x.value.id == "self"}
+            props[m.name] = reads
+    init = _m(repo, ENS, "__init__")
+    # parameters created in __init__ (nnx.Param): properties that read them are trainable quantities
+    trainable = set()
+    for st in ast.walk(init):
+        if isinstance(st, ast.Assign) and len(st.targets) == 1 and isinstance(st.targets[0], ast.Attribute) and dotted(st.targets[0].value) == "self" and isinstance(st.value, ast.Call) \
+                and (repo.resolve_expr(mi, st.value.func) or "").endswith("nnx.Param"):
+            trainable.add(st.targets[0].attr)
+    live = {p for p, reads in props.items() if reads & trainable}
+    ck.need(live, f"{ENS}: no property over trainable parameters found (anchor vanished)")
+
+    def eager_loads(node):
+        """Attribute loads self.<live property> that are evaluated when ``node`` is (not inside a lambda / nested def body)."""
+        out = []
+        stack = [node]
+        while stack:
+            x = stack.pop()
+            if isinstance(x, (ast.Lambda, ast.FunctionDef)) and x is not node:
+                continue
+            if isinstance(x, ast.Attribute) and isinstance(x.value, ast.Name) and x.value.id == "self" and x.attr in live and isinstance(x.ctx, ast.Load):
+                out.append(x)
+            stack.extend(ast.iter_child_nodes(x))
+        return out
+    frozen = []
+    for st in init.body:
+        for sub in ast.walk(st):
+            if isinstance(sub, ast.Assign) and any(isinstance(t, ast.Attribute) and dotted(t.value) == "self" for t in sub.targets):
+                frozen += [(sub, x) for x in eager_loads(sub.value)]
+    ck.ob("R3-nll", ENS + ".__init__", "bounds-read-at-call-time", not frozen, f"properties over trainable parameters: {sorted(live)}",
+          "" if not frozen else f"`{short(frozen[0][0], 80)}` stores the value of `self.{frozen[0][1].attr}` at construction: the forward paths keep using the initial bounds after the bound parameters are trained / restored", loc(mi, frozen[0][0]) if frozen else loc(mi, init))
 
 
 def r1_shapes(ck, repo):
@@ -126,12 +168,36 @@ def r2_r3_formulas(ck, repo, nf):
     rets = [n for n in cfg.nodes if n.kind == "stmt" and isinstance(n.ast, ast.Return)]
     got = nf.poly(rets[0].ast.value, sc, rets[0].id)
     F = "self._forward_ensemble(self.ensemble, x)"
-    LV = f"self._safe_log_var({F}[1], self.min_log_var, self.max_log_var)"
     ssc = Scope(None, mi, sc.env, "spec", self_class=ENS)
     w0 = nf.poly(parse_expr(f"jnp.mean({F}[0], axis=0)"), ssc, None)
-    w1 = nf.poly(parse_expr(f"jnp.mean(jnp.exp({LV}), axis=0) + jnp.var({F}[0], axis=0)"), ssc, None)
-    ok = got.elems is not None and len(got.elems) == 2 and got.elems[0] == w0 and got.elems[1] == w1
-    ck.ob("R2-aggregate", ENS + ".aggregate", "law-of-total-variance", ok, f"({got.canon()[:170]}", "" if ok else f"must return (mean_0(mu), mean_0(exp(lv)) + var_0(mu)) over the member axis 0: expected variance `{w1.canon()[:140]}`", loc(mi, fn))
+    wv = nf.poly(parse_expr(f"jnp.var({F}[0], axis=0)"), ssc, None)
+    raw_lv = nf.poly(parse_expr(f"{F}[1]"), ssc, None)
+    ck.need(got.elems is not None and len(got.elems) == 2, f"{ENS}.aggregate: must return (mean, variance)")
+    ok0 = got.elems[0] == w0
+    # variance = mean over members of exp(bounded log-variance) + variance over members of the means; the bounding function is
+    # whatever the class applies to the raw log-variance (its form is R3), here only its position in the formula matters
+    rest = got.elems[1] - wv
+    ok1, why1 = False, ""
+    m_mean = nf.meta.get(rest.single_atom() or "", {})
+    if m_mean.get("fn", "").split(".")[-1] == "mean" and m_mean.get("args") and m_mean.get("kws", {}).get("axis") is not None and m_mean["kws"]["axis"].canon() == "0":
+        m_exp = nf.meta.get(m_mean["args"][0].single_atom() or "", {})
+        if m_exp.get("fn", "").split(".")[-1] == "exp" and m_exp.get("args"):
+            X = m_exp["args"][0]
+            mx = nf.meta.get(X.single_atom() or "", {})
+            if X == raw_lv:
+                why1 = "the raw (unbounded) log-variance is exponentiated"
+            elif mx and any(a_ == raw_lv for a_ in mx.get("args", [])):
+                ok1 = True
+            else:
+                raise AnalysisError(f"{ENS}.aggregate: exponent `{X.canon()[:80]}` is not a bounded form of the members' log-variance (unrecognised form)")
+        else:
+            why1 = "the member variances are not exp(log-variance)"
+    elif not same_ingredients(got.elems[1], wv + raw_lv, ("exp", "mean", "min_log_var", "max_log_var", "_safe_log_var", "_safe_log_var_i")):
+        raise AnalysisError(f"{ENS}.aggregate: variance `{got.elems[1].canon()[:120]}` (unrecognised form)")
+    else:
+        why1 = "the variance is not mean_0(exp(lv)) + var_0(mu)"
+    ok = ok0 and ok1
+    ck.ob("R2-aggregate", ENS + ".aggregate", "law-of-total-variance", ok, f"({got.canon()[:170]}", "" if ok else f"must return (mean_0(mu), mean_0(exp(lv)) + var_0(mu)) over the member axis 0{': ' + why1 if why1 else ''}", loc(mi, fn))
     # soft bounding: nested def in __init__
     init = _m(repo, ENS, "__init__")
     sl = next((n for n in ast.walk(init) if isinstance(n, ast.FunctionDef) and n.name == "safe_log_var"), None)
@@ -370,15 +436,17 @@ def r6_pendulum(ck, repo, nf):
 
 def run(ck, repo: Repo, tier: str):
     nf = NF(repo, inline_depth=2)
-    r1_shapes(ck, repo)
-    r2_r3_formulas(ck, repo, nf)
-    r4_bootstraps(ck, repo, nf)
-    r5_plans(ck, repo, nf)
-    r6_pendulum(ck, repo, nf)
+    ck.guard(r0_live_bounds, ck, repo)
+    ck.guard(r1_shapes, ck, repo)
+    ck.guard(r2_r3_formulas, ck, repo, nf)
+    ck.guard(r4_bootstraps, ck, repo, nf)
+    ck.guard(r5_plans, ck, repo, nf)
+    ck.guard(r6_pendulum, ck, repo, nf)
 
 
 _E, _P, _R = "rl_blox/blox/probabilistic_ensemble.py", "rl_blox/algorithm/pets.py", "rl_blox/algorithm/pets_reward_models.py"
 MUTANTS = [
+    {"id": "c17-bounds-frozen", "file": _E, "rule": "R3", "find": "        self._safe_log_var_i = nnx.vmap(safe_log_var, in_axes=(0, None, None))", "replace": "        self._upper_bound = self.max_log_var\n        self._safe_log_var_i = nnx.vmap(safe_log_var, in_axes=(0, None, None))"},
     {"id": "c17-tsinf-scalar-noise", "file": "rl_blox/algorithm/pets.py", "rule": "R1", "edits": [("        dist = dynamics_model.base_distribution(\n", "        mean, var = dynamics_model.base_predict(\n"), ("        delta_obs = dist.sample(seed=sampling_key)[0]", "        noise = jax.random.normal(sampling_key, dtype=mean.dtype)\n        delta_obs = mean[0] + jnp.sqrt(var[0]) * noise")]},
     {"id": "c17-resize-batches", "file": "rl_blox/blox/probabilistic_ensemble.py", "rule": "R4", "find": "        batched_indices = shuffled_indices.reshape(\n            model.n_ensemble, batch_size, -1\n        ).transpose([2, 0, 1])", "replace": "        batched_indices = jnp.resize(shuffled_indices, (model.n_ensemble, shuffled_indices.shape[1] // batch_size, batch_size)).transpose([1, 0, 2])"},
     {"id": "c17-base-predict-double-vmap", "file": _E, "rule": "R1", "nth": 0, "find": "        log_var_i = self._safe_log_var_i(\n            log_var_i, self.min_log_var, self.max_log_var\n        )\n        return mean_i, jnp.exp(log_var_i)", "replace": "        log_var_i = self._safe_log_var(\n            log_var_i, self.min_log_var, self.max_log_var\n        )\n        return mean_i, jnp.exp(log_var_i)"},
